@@ -18,7 +18,7 @@ use rs_matter::utils::sync::IfMutex;
 use rsm_harness::e2e;
 use rsm_harness::Rng;
 
-use super::{classify, craft, err_class, op_wire, status_payload, B_NODE, G, G_NODE, PROTO};
+use super::{classify, craft, craft_group, err_class, group_sid, install_group, op_wire, status_payload, B_NODE, G, G_NODE, PROTO};
 
 pub const MAX_EXCHANGES: usize = 5;
 
@@ -83,6 +83,7 @@ fn hdr_of(m: &Msg, sess_id: u16) -> PacketHdr {
 
 pub fn run_p(f: &[&str]) -> String {
     let mut enc = true;
+    let mut grp = false;
     let mut exp = false;
     let mut win = (false, 0u32, 0u16);
     let mut pre: Vec<Option<(u16, char, char, Option<u32>, Option<(u32, bool)>)>> = vec![];
@@ -91,6 +92,7 @@ pub fn run_p(f: &[&str]) -> String {
         let Some((k, v)) = kv.split_once('=') else { continue };
         match k {
             "enc" => enc = v == "1",
+            "grp" => grp = v == "1",
             "exp" => exp = v == "1",
             "win" => {
                 let p: Vec<&str> = v.split(':').collect();
@@ -105,6 +107,9 @@ pub fn run_p(f: &[&str]) -> String {
     let mut s = Session::new(7, 100, false, e2e::node_addr(G), Some(G_NODE), 300, 300, 4000);
     if enc {
         s.verif_set_session_mode(SessionMode::Case { fab_idx: NonZeroU8::new(1).unwrap(), cat_ids: Default::default() });
+    }
+    if grp {
+        s.verif_set_session_mode(SessionMode::Group { fab_idx: NonZeroU8::new(1).unwrap(), group_id: 7 });
     }
     s.verif_set_expired(exp);
     *s.verif_rx_ctr_state() = RxCtrState::verif_from_raw(win.0, win.1, win.2);
@@ -171,8 +176,10 @@ fn s_slots(snap: &VerifSessionSnapshot, alias: &[(u32, u16, u16)]) -> String {
 }
 
 /// key of a session as the scripts name it: encrypted = local session id (1..9), unencrypted = 10 + low byte of the peer node id
-fn key_of(snap: &VerifSessionSnapshot) -> u32 {
-    if snap.local_sess_id != 0 {
+fn key_of(snap: &VerifSessionSnapshot, gsid: u16) -> u32 {
+    if snap.local_sess_id == gsid {
+        9
+    } else if snap.local_sess_id != 0 {
         snap.local_sess_id as u32
     } else {
         10 + (snap.peer_nodeid.unwrap_or(0) & 0xff) as u32
@@ -183,6 +190,8 @@ pub fn run_s(ops: &str) -> String {
     let crypto = test_only_crypto();
     let det = e2e::dev_det(Some(80), Some(80));
     let matter = e2e::new_matter(det, true);
+    install_group(&matter);
+    let gsid = group_sid(&crypto);
     let runner = matter.transport_runner(&crypto);
     let sent = Rc::new(RefCell::new(Vec::<Vec<u8>>::new()));
     let send = IfMutex::new(Collect(sent.clone()));
@@ -202,8 +211,8 @@ pub fn run_s(ops: &str) -> String {
                     format!(
                         "S{}k{}{}{}[{}]",
                         snap.id,
-                        key_of(&snap),
-                        if snap.local_sess_id != 0 { 'e' } else { 'u' },
+                        key_of(&snap, gsid),
+                        if matches!(snap.mode, SessionMode::Group { .. }) { 'g' } else if snap.local_sess_id != 0 { 'e' } else { 'u' },
                         if snap.expired { 'x' } else { '-' },
                         s_slots(&snap, alias)
                     )
@@ -214,7 +223,9 @@ pub fn run_s(ops: &str) -> String {
         let rx = if locked {
             "T".to_string()
         } else if holding {
-            let key = if hdr.plain.sess_id != 0 {
+            let key = if hdr.plain.sess_id == gsid {
+                9
+            } else if hdr.plain.sess_id != 0 {
                 hdr.plain.sess_id as u32
             } else {
                 10 + (hdr.plain.get_src_nodeid().unwrap_or(0) & 0xff) as u32
@@ -230,7 +241,8 @@ pub fn run_s(ops: &str) -> String {
             "E".to_string()
         };
         let hs: Vec<String> = handles.iter().map(|h| h.as_ref().map(|e| format!("{}", e.id()).replace("::", ".")).unwrap_or_else(|| "x".into())).collect();
-        format!("{}|rx={}|h={}", sess.join(";"), rx, hs.join(","))
+        let (tl, tq) = runner.verif_tx_state();
+        format!("{}|rx={}|tx={}|h={}", sess.join(";"), rx, if tl { 'T' } else if tq { 'Q' } else { 'E' }, hs.join(","))
     };
 
     for op in ops.split(';').filter(|x| !x.is_empty()) {
@@ -280,7 +292,7 @@ pub fn run_s(ops: &str) -> String {
                 matter.with_state(|st| {
                     for s in st.verif_sessions().iter() {
                         let snap = s.verif_snapshot();
-                        if key_of(&snap) != key {
+                        if key_of(&snap, gsid) != key {
                             continue;
                         }
                         if !init {
@@ -308,7 +320,12 @@ pub fn run_s(ops: &str) -> String {
                     _ => vec![0u8; 4],
                 };
                 let (sess_id, src) = if encrypted { (key as u16, G_NODE) } else { (0u16, 0x9000 + (key as u64 - 10)) };
-                let pkt = craft(&crypto, sess_id, p[1].parse().unwrap(), src, exid, init, rel, ack, pid, opc, &body, encrypted);
+                let pkt = if key == 9 {
+                    // a real groupcast data message (group key installed on the device)
+                    craft_group(&crypto, p[1].parse().unwrap(), exid, init, rel, pid, opc, &body)
+                } else {
+                    craft(&crypto, sess_id, p[1].parse().unwrap(), src, exid, init, rel, ack, pid, opc, &body, encrypted)
+                };
                 match e2e::block_on(runner.verif_rx_step(&pkt, e2e::node_addr(G), &send)) {
                     None => "busy".into(),
                     Some(true) => {
@@ -377,8 +394,8 @@ pub fn run_s(ops: &str) -> String {
                     _ => "na".into(),
                 }
             }
-            's' => {
-                // s<handle>:<rel>
+            's' | 'q' => {
+                // s<handle>:<rel> = init_send + complete + process_tx;  q<handle>:<rel> = without process_tx
                 let p: Vec<&str> = arg.split(':').collect();
                 let n: usize = p[0].parse().unwrap();
                 let rel = p[1] == "1";
@@ -394,7 +411,9 @@ pub fn run_s(ops: &str) -> String {
                             Some(Err(_)) => "no".to_string(),
                             None => "no".to_string(),
                         };
-                        let _ = runner.verif_tx_flush();
+                        if kind == 's' {
+                            let _ = runner.verif_tx_flush();
+                        }
                         r
                     }
                 }
@@ -419,6 +438,11 @@ pub fn run_s(ops: &str) -> String {
                     Err(_) => "no".into(),
                 }
             }
+            'F' => match runner.verif_tx_flush_report() {
+                Some((_, _, true)) => "sent".into(),
+                Some((_, _, false)) => "dropped".into(),
+                None => "no".into(),
+            },
             'W' => match runner.verif_sweep_accept_timeout() {
                 Some(true) => format!("fired~{}", kept_at.map(|t| t.elapsed().as_millis()).unwrap_or(0)),
                 Some(false) => format!("no~{}", kept_at.map(|t| t.elapsed().as_millis()).unwrap_or(0)),
@@ -533,6 +557,30 @@ pub fn generate(tier: &str, rng: &mut Rng) -> Vec<String> {
             }
         }
     }
+    // the same routing on a session in group mode (ephemeral RX group session)
+    for &(role, state) in ROLE_STATES.iter() {
+        for known in [true, false] {
+            for init in [true, false] {
+                for &op in ops.iter() {
+                    for exp in [false, true] {
+                        for (rel, ackv) in [(true, "-"), (false, "77")] {
+                            cases.push(format!(
+                                "P {} enc=1 grp=1 exp={} win=0:0:0 pre={} msg=11:{}:{}:{}:{}:{}",
+                                nid(),
+                                exp as u8,
+                                slot_str(100, role, state, None, None),
+                                if known { 100 } else { 101 },
+                                if init { 'i' } else { 'r' },
+                                op,
+                                rel as u8,
+                                ackv
+                            ));
+                        }
+                    }
+                }
+            }
+        }
+    }
     // duplicates / window edge, unencrypted sessions, empty table, two exchanges with the same id and opposite roles
     for enc in [true, false] {
         for (win, ctr) in [("0:0:0", 5u32), ("1:10:65535", 10), ("1:10:65535", 9), ("1:40:0", 30), ("1:40:0", 20), ("1:40:0", 41)] {
@@ -631,6 +679,23 @@ pub fn generate(tier: &str, rng: &mut Rng) -> Vec<String> {
         "+1;+2;+3;-0;r3:1:300:i:o:1:-;A;v0;D0;O;C",
         // late accept just before the deadline
         "+1;r1:1:100:i:o:1:-;t400;W;t400;W;A;v0;d0;D0;C",
+        // a peer's CloseSession on an exchange of its own removes the session (also an expired one); a status report that is not a close is dropped
+        "+1;+2;r1:1:999:i:c:0:-;r2:1:999:i:s:0:-;x1;r2:2:998:r:c:0:-",
+        // CloseSession while a message of that session waits in the RX slot: orphaned
+        "+1;+2;r1:1:100:i:o:1:-;A;v0;d0;r2:1:200:i:o:1:-;r1:2:999:i:c:0:-;A;v1;D0;D1;C;O",
+        // group data message: ephemeral session, no MRP even with the R flag set, gone with its last exchange
+        "r9:1:300:i:o:1:-;A;v0;d0;D0;C",
+        "r9:1:300:i:o:0:-;A;v0;d0;s0:0;D0;C",
+        // group message nobody accepts: accept timeout, the closer frees the exchange and the session
+        "r9:1:300:i:o:1:-;W;t1100;W;C;C;O",
+        // second group message while the first one's session still exists joins it; duplicates are not acknowledged
+        "+1;r9:1:300:i:o:0:-;A;v0;d0;r9:2:301:i:o:1:-;r9:2:301:i:o:1:-;A;v1;d1;D0;D1;C",
+        // TX buffer: a queued packet blocks the next sender and the closer until process_tx takes it;
+        // a packet whose session went meanwhile is dropped by process_tx
+        "+1;+2;r1:1:100:i:o:1:-;A;v0;d0;r2:1:200:i:o:1:-;A;v1;d1;q0:1;q1:1;s1:1;D1;C;F;C;q1:0;F",
+        "+1;r1:1:100:i:o:1:-;A;v0;d0;q0:0;-0;F;q0:0;F",
+        // group messages that may not open an exchange
+        "r9:1:300:r:o:0:-;r9:2:300:i:a:0:-;r9:3:300:i:s:0:-;C",
     ];
     for s in s_fixed {
         cases.push(format!("S {} {}", nid(), s));
@@ -644,7 +709,7 @@ pub fn generate(tier: &str, rng: &mut Rng) -> Vec<String> {
         for s in 1..=n_sess {
             ops.push(format!("+{}", s));
         }
-        let mut ctr = [0u32; 4];
+        let mut ctr = [0u32; 10];
         let mut n_handles = 0u64;
         let mut ticks = 0;
         // rough guess whether the RX slot is occupied (steers the choice only)
@@ -654,10 +719,13 @@ pub fn generate(tier: &str, rng: &mut Rng) -> Vec<String> {
             let c = rng.below(100);
             let h = if n_handles == 0 { 0 } else { rng.below(n_handles + 1) };
             if c < 30 {
-                let key = rng.range(1, n_sess) as usize;
+                // one in eight datagrams is a groupcast message (key 9; its counters never repeat:
+                // the group counter store is C04's)
+                let group = rng.chance(1, 8);
+                let key = if group { 9 } else { rng.range(1, n_sess) as usize };
                 ctr[key] += 1;
                 // mostly fresh counters, sometimes a repeat
-                let cval = if rng.chance(1, 8) && ctr[key] > 1 { ctr[key] - 1 } else { ctr[key] };
+                let cval = if !group && rng.chance(1, 8) && ctr[key] > 1 { ctr[key] - 1 } else { ctr[key] };
                 // initiator exchanges are addressed by their alias (unique per case, like the real ids)
                 let exid = if rng.chance(1, 6) { 900 + rng.below((next_alias - 900).max(1)) } else { 100 + rng.below(3) };
                 let init = if exid >= 900 { rng.chance(1, 5) } else { rng.chance(4, 5) };
@@ -699,8 +767,12 @@ pub fn generate(tier: &str, rng: &mut Rng) -> Vec<String> {
                 ops.push(format!("d{}", h));
             } else if c < 71 {
                 ops.push(format!("D{}", h));
-            } else if c < 77 {
+            } else if c < 75 {
                 ops.push(format!("s{}:{}", h, rng.chance(2, 3) as u8));
+            } else if c < 76 {
+                ops.push(format!("q{}:{}", h, rng.chance(2, 3) as u8));
+            } else if c < 77 {
+                ops.push("F".into());
             } else if c < 81 {
                 ops.push(format!("i{}:{}", rng.below(n_sess), next_alias));
                 next_alias += 1;
@@ -757,9 +829,25 @@ pub fn generate(tier: &str, rng: &mut Rng) -> Vec<String> {
         "h=n0 ga=1 s=g1:100:i:1:o:5:1500;w50;g2:200:i:1:o:1:0;w1400;w400;q2:2500;p2500",
         // second message for a waiting exchange is delivered to it, not to a new handler
         "h=n0.n0 ga=1 s=g1:100:i:1:o:5:1000;w100;g1:100:i:1:o:1:0;w300;p2500",
+        // groupcast data message: delivered on its ephemeral session, which goes when the handler drops the exchange
+        "h=n0 ga=1 s=x100:0:2:0;w300;p2500",
+        // nobody accepts a group message: accept timeout, the closer frees exchange and session
+        "h= ga=1 s=x100:0:2:0;w1400",
+        // a group message with the R flag set leaves no acknowledgement behind (the sweeper used to spin on it)
+        "h=n0 ga=1 s=x100:1:2:0;w500;p2500",
+        // a peer's CloseSession on an exchange of its own closes the session: the next opener gets SessionNotFound
+        "h=n0 ga=1 s=g1:999:i:0:c:1:0;w200;q1:1500;p2500",
     ];
+    // not predicted (the model's network is instantaneous): a slow link keeps the TX buffer locked while two
+    // exchanges wait for it and the session of one of them is closed; the other one's unreliable answer
+    // (tag 0) must still reach the wire
+    cases.push(format!(
+        "E {} h=n0.n0.n0 ga=1 slow=200 er=0.4 s=g2:200:i:0:o:7:300;w2;g1:100:i:0:o:7:300;w248;g2:201:i:1:o:1:0;w100;g1:100:i:0:c:1:0;w900",
+        nid()
+    ));
     for s in e_fixed {
-        cases.push(format!("E {} {}", nid(), s));
+        // det=1: the model predicts deliveries, probe outcomes and the final tables (ocaml/c10/driver.ml)
+        cases.push(format!("E {} det=1 {}", nid(), s));
     }
     let n_e = if thorough { 120 } else { 14 };
     for _ in 0..n_e {
